@@ -166,7 +166,7 @@ func (r *Receiver) SegmentHandlerFunc(w http.ResponseWriter, req *http.Request) 
 			}
 		} else {
 			sr := bits.NewFixedSliceReader(cd.Data)
-			chunk, err := mp4.DecodeFileSR(sr, mp4.WithDecodeFlags(mp4.DecFileFlags(mp4.DecModeLazyMdat)))
+			chunk, err := decodeUpload(sr, mp4.WithDecodeFlags(mp4.DecFileFlags(mp4.DecModeLazyMdat)))
 			if err != nil {
 				return fmt.Errorf("failed to decode chunk %d: %w", rsd.chunkNr, err)
 			}
@@ -479,6 +479,17 @@ func findAndProcessOrigInitSegment(log *slog.Logger, ch *channel, stream stream)
 	return nil
 }
 
+// decodeUpload decodes uploaded MP4 data. The decoder panics on some malformed box sequences,
+// like a moov box that is not preceded by an ftyp box. That is returned as an error.
+func decodeUpload(sr bits.SliceReader, options ...mp4.Option) (f *mp4.File, err error) {
+	defer func() {
+		if r := recover(); r != nil {
+			f, err = nil, fmt.Errorf("malformed MP4 data: %v", r)
+		}
+	}()
+	return mp4.DecodeFileSR(sr, options...)
+}
+
 func processInitSegment(log *slog.Logger, ch *channel, s stream, data []byte, isOrg bool) ([]byte, error) {
 	sr := bits.NewFixedSliceReader(data)
 	// Write original init segment to init_org.ext
@@ -492,11 +503,14 @@ func processInitSegment(log *slog.Logger, ch *channel, s stream, data []byte, is
 			return nil, fmt.Errorf("failed to write original init segment: %w", err)
 		}
 	}
-	iSeg, err := mp4.DecodeFileSR(sr)
+	iSeg, err := decodeUpload(sr)
 	if err != nil {
 		return nil, fmt.Errorf("failed to decode init segment: %w", err)
 	}
 	init := iSeg.Init
+	if init == nil || init.Moov == nil {
+		return nil, fmt.Errorf("no init segment in the data")
+	}
 	err = ch.addInitDataAndUpdateTimescale(s, init)
 	if err != nil {
 		return nil, fmt.Errorf("failed to addInitData: %w", err)
